@@ -68,6 +68,18 @@ UniqueArr(A, w) == Cardinality(Arrangements(A, w)) = 1
 TheArr(A, w) == CHOOSE x \in Arrangements(A, w) : TRUE
 
 \* ---------------------------------------------------------------------------
+\* every accepted word up to length n (level-wise over <<word, position set>>)
+RECURSIVE WordsLevels(_, _, _, _)
+WordsLevels(A, level, k, acc) ==
+  LET ok == {x[1] : x \in {y \in level : y[2] \cap A.last # {}}}
+  IN IF k = 0 \/ level = {} THEN acc \cup ok
+     ELSE WordsLevels(A, UNION {{<<Append(x[1], a), Step(A, x[2], a)>> : a \in {A.lab[q] : q \in UNION {A.follow[p] : p \in x[2]}}} : x \in level},
+                      k - 1, acc \cup ok)
+WordsUpTo(A, n) ==
+  (IF A.nullable THEN {<<>>} ELSE {}) \cup
+  (IF n = 0 THEN {} ELSE WordsLevels(A, {<<<<a>>, Start(A, a)>> : a \in {A.lab[q] : q \in A.first}}, n - 1, {}))
+
+\* ---------------------------------------------------------------------------
 \* edge cover: for every follow edge (and every first position) one shortest accepted path through it
 RECURSIVE BfsTo(_, _, _)
 BfsTo(A, frontier, f) ==
